@@ -1,6 +1,6 @@
 META = {
     "assumptions": ["allocation failure out of scope (--no-malloc-may-fail)"],
-    "outside": ["trees of more than 3 extents", "positions >= 2^32", "ext2fs_convert_subcluster_bitmap"],
+    "outside": ["trees of more than 3 extents", "positions >= 2^32", "ext2fs_convert_subcluster_bitmap on the rbtree back end (the marks would be an operation history)"],
 }
 BM_SRC = ["lib/ext2fs/gen_bitmap64.c", "lib/ext2fs/bitops.c", "lib/ext2fs/gen_bitmap.c"]
 OPS = {"MARK":1,"UNMARK":2,"TEST":3,"MARK_RANGE":4,"UNMARK_RANGE":5,"TEST_RANGE":6,"SET_RANGE":7,
@@ -97,6 +97,12 @@ HARNESSES = [
          configs=[{"WANT": 0}, {"WANT": 1}],
          unwind=10, unwindset=["main.%d:257" % i for i in range(5)], backends=["kissat", "default", "cadical"],
          bound="256-bit array (four aligned 64-bit words), every bit symbolic; any range [a, b]; bitmap start 0 or 1"),
+    dict(name="subcluster", src="subcluster.c", extra_src=BM_SRC + ["lib/ext2fs/blknum.c", "lib/ext2fs/blkmap64_ba.c", "lib/ext2fs/blkmap64_rb.c", "lib/ext2fs/rbtree.c"],
+         funcs=["ext2fs_convert_subcluster_bitmap", "ext2fs_allocate_subcluster_bitmap", "ext2fs_allocate_block_bitmap"],
+         configs=[{"CRB": 2, "NG": 2, "BPG": 8}, {"CRB": 1, "NG": 2, "BPG": 8}, {"CRB": 1, "NG": 3, "BPG": 4}],
+         unwind=20, unwindset=["strlen.0:40", "strcpy.0:40"], backends=["default", "kissat"], cap_quick=300,
+         bound="bit-array back end; 2 groups x 8 blocks (ratio 2 and 4) and 3 groups x 4 blocks (ratio 2); every subset of the "
+               "valid blocks marked; blocks_count anywhere in the last group; s_first_data_block 0"),
     dict(name="ba", src="ba.c", extra_src=BM_SRC + ["lib/ext2fs/blkmap64_rb.c", "lib/ext2fs/rbtree.c"],
          funcs=["ext2fs_alloc_generic_bmap", "ba_new_bmap"],
          configs=ba_cfgs(), unwind=40,
